@@ -47,10 +47,53 @@ def build_ops():
     return [("d", u, v) for u in BUILD_NAMES for v in BUILD_NAMES if u != v] + [("b", u, v) for u, v in itt.combinations(BUILD_NAMES, 2)]
 
 
+@lru_cache(maxsize=None)
+def cases5w(tier):
+    """Five-node three-world cases (graph, event): three distinct outcome variables, each observed in its own world --
+    {x}, {y}, {x, y} in every assignment, x and y the two remaining nodes -- and each a child of exactly the variables its
+    world intervenes on (so no intervention is irrelevant and no world collapses); one or two (thorough: also three)
+    bidirected edges among the outcomes.  Outcome and intervention variables are disjoint, so a world that lies between two
+    others is not kept alive by the event itself (seeded change C07-g)."""
+    names = ("A", "B", "C", "D", "E")
+    out = []
+    for outs in itt.combinations(names, 3):
+        x, y = [n for n in names if n not in outs]
+        worlds = [((x, False),), ((y, False),), ((x, False), (y, False))]
+        pairs = list(itt.combinations(outs, 2))
+        for perm in itt.permutations(worlds):
+            items = tuple((v, w, False) for v, w in zip(outs, perm))
+            di = [(n, v) for v, w, _ in items for n, _ in w]
+            for k in (1, 2) if tier == "quick" else (1, 2, 3):
+                for bi in itt.combinations(pairs, k):
+                    out.append((canonical_graph(names, di, bi), items))
+    # six nodes: three single-variable worlds {x}, {y}, {z}, each outcome the child of its own world's variable
+    names = ("A", "B", "C", "D", "E", "F")
+    for outs in itt.combinations(names, 3):
+        rest = [n for n in names if n not in outs]
+        pairs = list(itt.combinations(outs, 2))
+        for perm in itt.permutations(rest):
+            items = tuple((v, ((x, False),), False) for v, x in zip(outs, perm))
+            di = [(x, v) for v, x in zip(outs, perm)]
+            for k in (1, 2):
+                for bi in itt.combinations(pairs, k):
+                    out.append((canonical_graph(names, di, bi), items))
+    return out
+
+
+def explore_5w(res: Res, lo, hi, tier, seed, only=None):
+    for g, items in cases5w(tier)[lo:hi]:
+        if only is not None and (g.to_json(), event_json(items)) != only:
+            continue
+        yg = to_y0(g)
+        m = TwoWitness(FSCM(g, salt=f"f{seed}"), FSCM(g, salt=f"g{seed}"))
+        check_event(res, g, yg, m, m, items, {"graph": g.to_json(), "event": event_json(items), "five_node_worlds": True})
+
+
 def shards(tier):
     n = len(_universe(tier))
     idx = sorted(range(n), key=lambda i: -len(_universe(tier)[i].nodes))
-    return [(i, i + 1) for i in idx] + [("build", i) for i in range(len(build_ops()))]
+    n5 = len(cases5w(tier))
+    return [("w5", i, min(i + 16, n5)) for i in range(0, n5, 16)] + [(i, i + 1) for i in idx] + [("build", i) for i in range(len(build_ops()))]
 
 
 def canonical_graph(nodes, di, bi) -> G:
@@ -111,7 +154,7 @@ def describe(tier):
             "edges) (singles up to 2, pairs up to 1)"
         )
         + "; subscripts may include the variable itself; values - and +; every base value assignment; plus every sequence of 3 "
-        "edge insertions on one live graph object with ID* asked for all all-'-' events after every insertion",
+        "edge insertions on one live graph object with ID* asked for all all-'-' events after every insertion; five- and six-node three-world cases: three outcome variables, each observed in its own world and the child of exactly the variables that world intervenes on ({x}, {y}, {x,y} on five nodes; {x}, {y}, {z} on six), one or two bidirected edges among the outcomes, every assignment of worlds to outcomes",
         "rule": "state = (graph, event); transition = one id_star call whose result is evaluated on the functional witness "
         "SCM and compared with the probability of the conjunction obtained by enumerating all exogenous settings",
         "assumptions": [
@@ -398,6 +441,9 @@ def work(shard, tier, seed):
     res = Res()
     if shard[0] == "build":
         explore_builder(res, shard[1], tier, seed)
+        return res
+    if shard[0] == "w5":
+        explore_5w(res, shard[1], shard[2], tier, seed)
         return res
     lo, hi = shard
     for g in _universe(tier)[lo:hi]:
